@@ -316,6 +316,34 @@ func rule164(r *core.Run, mws []hostMW) {
 		return
 	}
 	allowedMode[srv] = true
+	// helpers whose every static caller is completeMultipartUpload (or such a helper) belong to it
+	cmuPart := map[*ssa.Function]bool{cmu: true}
+	for changed := true; changed; {
+		changed = false
+		for _, f := range r.P.RepoFuncs() {
+			if cmuPart[f] || r.P.PkgShort(f) != "gofakes3" {
+				continue
+			}
+			callers := r.P.StaticCallers(f)
+			if len(callers) == 0 {
+				continue
+			}
+			all := true
+			for _, c := range callers {
+				pf := c.Parent()
+				for pf.Parent() != nil {
+					pf = pf.Parent()
+				}
+				if !cmuPart[pf] {
+					all = false
+				}
+			}
+			if all {
+				cmuPart[f] = true
+				changed = true
+			}
+		}
+	}
 	marks := map[*ssa.Function]bool{}
 	for _, n := range []string{"gofakes3.withHostBucket", "gofakes3.isHostBucketRequest"} {
 		if f := optFunc(r, n); f != nil {
@@ -378,7 +406,7 @@ func rule164(r *core.Run, mws []hostMW) {
 				}
 			case "net/http.Request.Host":
 				nReads++
-				if !allowedMode[fn] && fn != cmu && !logOnly(in, loaded) {
+				if !allowedMode[fn] && !cmuPart[fn] && !logOnly(in, loaded) {
 					r.Violated("R16.4", key(fname(r, fn), "reads Request.Host"), pos(r, in),
 						"a handler reads Request.Host: its answer depends on how the request was addressed")
 				}
@@ -406,7 +434,7 @@ func rule164(r *core.Run, mws []hostMW) {
 			}
 			if sc := core.StaticCallee(c); sc != nil && marks[sc] {
 				nReads++
-				if !allowedMode[fn] && fn != cmu && !marks[fn] {
+				if !allowedMode[fn] && !cmuPart[fn] && !marks[fn] {
 					r.Violated("R16.4", key(fname(r, fn), "reads the host-addressed mark"), pos(r, in), "a handler other than completeMultipartUpload asks how the request was addressed: its answer depends on the addressing mode")
 				}
 			}
@@ -937,7 +965,7 @@ func forwards(r *core.Run, f *ssa.Function) []fwd {
 		if len(args) != 2 {
 			continue
 		}
-		if ph, ok := args[1].(*ssa.Phi); ok && (ph.Block() == c.Block() || ph.Block().Dominates(c.Block())) {
+		if ph, ok := args[1].(*ssa.Phi); ok && (ph.Block() == c.Block() || core.BlockDominates(ph.Block(), c.Block())) {
 			for k, e := range ph.Edges {
 				pred := ph.Block().Preds[k]
 				out = append(out, fwd{c, e, pred.Instrs[len(pred.Instrs)-1], sprintf("#%d.%d", i, k)})
